@@ -202,12 +202,16 @@ func (st *State) concreteSize(n *Term, what string) int {
 		}
 		return int(n.C)
 	}
-	for k := 0; k <= 64; k++ {
+	lo := 0
+	if n.Op == "bvadd" && n.Args[1].IsConst() && n.Args[1].SVal() > 0 {
+		lo = int(n.Args[1].C) // x + c >= c for lengths
+	}
+	for k := lo; k <= lo+192; k++ {
 		if st.decide(Eq(n, U64(uint64(k)))) {
 			return k
 		}
 	}
-	panic(killSignal{"UNWIND size split >64 for " + what})
+	panic(killSignal{"UNWIND size split >192 for " + what})
 }
 
 func (e *Engine) sizeof(t types.Type) (r int64) {
